@@ -80,9 +80,12 @@ func encryptLikeCLI(clear []byte, c *cryptgen.Case) ([]byte, *harness.Fail) {
 	if err != nil {
 		return nil, harness.Failf("C07|InitProtect|error on valid input", "%v", err)
 	}
+	fi := 0
 	for _, s := range inFile.Segments {
 		for _, f := range s.Fragments {
-			if err := mp4.EncryptFragment(f, c.Key, c.IV, ipd); err != nil {
+			key := c.KeyOf(fi) // with RotateKeys: another key for every call on the same InitProtectData
+			fi++
+			if err := mp4.EncryptFragment(f, key, c.IV, ipd); err != nil {
 				return nil, harness.Failf("C07|EncryptFragment|error on valid input", "%v", err)
 			}
 		}
@@ -449,9 +452,9 @@ func evalForm(c *cryptgen.Case, st *formStats) *harness.Fail {
 				if blocks >= 2 && ^lo < blocks-1 {
 					st.wrap = true
 				}
-				want = refcrypto.CencCrypt(c.Key, iv, clear, ranges)
+				want = refcrypto.CencCrypt(c.KeyOf(fi), iv, clear, ranges)
 			} else {
-				want = refcrypto.CbcsCrypt(c.Key, tenc.ConstIV, clear, ranges, int(tenc.Crypt), int(tenc.Skip), false)
+				want = refcrypto.CbcsCrypt(c.KeyOf(fi), tenc.ConstIV, clear, ranges, int(tenc.Crypt), int(tenc.Skip), false)
 			}
 			if g := got[gi].Data; !bytes.Equal(g, want) {
 				d := 0
@@ -499,6 +502,10 @@ func checkForm(c cryptgen.Case) *harness.Fail {
 func TestEncryptedForm(t *testing.T) {
 	harness.RunRapid(t, "form", func(rt *rapid.T) {
 		c := cryptgen.Gen(rt, cryptgen.GenOpt{Avoid: avoidKnown})
+		// one case in four with two or more fragments: every EncryptFragment call gets a key of its own
+		if len(c.Frags) >= 2 && rapid.IntRange(0, 3).Draw(rt, "rotateKeys") == 0 {
+			c.RotateKeys = true
+		}
 		raw, _ := json.Marshal(c)
 		var st formStats
 		f := harness.Guarded(func() *harness.Fail { return evalForm(&c, &st) })
@@ -508,6 +515,9 @@ func TestEncryptedForm(t *testing.T) {
 		}
 		if st.splitClear {
 			cl = append(cl, "clear-run-split-into-65535-entries")
+		}
+		if c.RotateKeys {
+			cl = append(cl, "another-key-for-every-fragment")
 		}
 		harness.Rec.Case(st.protected > 0, raw, cl...)
 		if harness.Rec.WantSample() && len(raw) < 6000 && st.protected > 0 {
